@@ -31,6 +31,7 @@ DOCS = {
     "rule": F([S(1), R([S(1), S(1)], tags=["rt"]), R([S(1)])]),
     "outline": F([S(1), O(1, [(2, ["e1"]), (1, [])]), S(1, tags=["setup"])]),
     "rule-outline": F([S(1, tags=["teardown"]), R([O(1, [(1, []), (2, [])]), S(1)])]),
+    "same-names": F([S(1, name="Same"), R([S(1, name="Same"), O(1, [(1, [])], name="Tmpl")]), R([O(1, [(1, [])], name="Tmpl"), S(1, name="Same")])]),
 }
 
 
@@ -214,7 +215,9 @@ def h_names(sx):
 
 def jobs(tier, seed):
     js = []
-    docs = list(DOCS)
+    docs = [d for d in DOCS if d != "same-names"]
+    js.append(Job("files.single.same-names", "props.c10:h_files", {"docs": ["same-names"], "pattern": [0]},
+                  reach=["C10.files.selected==union-of-addressed-entities"], min_paths=10, cost=100, validate=40, closure=False))
     for d in docs:
         for blank in (0, 1):
             js.append(Job("kernel.%s.b%d" % (d, blank), "props.c10:h_kernel", {"doc": d, "blank": blank},
